@@ -47,6 +47,7 @@ where
     T: Hash + Eq + Clone + Ord + Display + Send + Sync,
     A: Clone + Send + Sync,
 {
+    graph.ensure_not_multi_edges()?;
     let _max_iter = max_iter.unwrap_or(100);
     let _tolerance = tolerance.unwrap_or(1.0e-6);
     let nnodes = graph.get_all_nodes().len();
